@@ -91,8 +91,9 @@ def cex_values(ck, key, desc, values):
 STEER = [1, 2**64, 2**128 + 5, 2**192 + 2**64 * 3 + 9, N - 1, 0x0102030405060708090a0b0c0d0e0f101112131415161718191a1b1c1d1e1f20]
 
 
-def run(tier, seed):
-    ck = Check('C07', tier, seed, level='model_checking')
+def run(tier, seed, ck=None):
+    own = ck is None
+    ck = ck or Check('C07', tier, seed, level='model_checking')
     lens = [0, 1, 31, 32, 33, 64] if tier == 'quick' else list(range(0, 67))
     hexlens = [0, 1, 2, 63, 64, 65, 66] if tier == 'quick' else list(range(0, 70)) + [128, 129]
     jobs = []
@@ -107,15 +108,15 @@ def run(tier, seed):
     for l in hexlens:
         jobs.append({'id': 'dechex%d' % l, 'harness': 'vh_scalar_decodehex', 'args': [l], 'summaries': SUMM})
     runs = ck.absorb(core.symx_parallel(HARNESS, jobs))
-    ck.extra['_runs'] = runs
+    ck.extra.setdefault('_runs', []).extend(runs)
     R_ = {r.id: r for r in runs}
-    ck.trusted = ['go/ssa + symx translation', 'SMT solvers (raced, cross-checked)',
+    ck.trusted += ['go/ssa + symx translation', 'SMT solvers (raced, cross-checked)',
                   'encoding/hex contract: DecodeString(EncodeToString(b)) = b; an arbitrary string either fails to decode or decodes to len/2 arbitrary bytes']
-    ck.assumptions = ['receiver limbs arbitrary; for Encode-side statements canonical (< n), the representation invariant (C10)',
+    ck.assumptions += ['receiver limbs arbitrary; for Encode-side statements canonical (< n), the representation invariant (C10)',
                       'To/FromMontgomery uninterpreted with contracts proved below on the real kernels']
     ck.bounds = {'decoder input lengths': lens, 'hex string lengths': hexlens, 'contents': 'all byte values',
                  'other lengths': 'take the same default branch: the executor follows no content-dependent branch before the length switch'}
-    ck.outside = ['input lengths not listed in bounds (same `default:` path by inspection of the length switch)',
+    ck.outside += ['input lengths not listed in bounds (same `default:` path by inspection of the length switch)',
                   'receiver value after a rejected 32-byte input (C07 does not promise it; the code leaves value-n there)']
     kernels.prove(ck, 'scalar', ['FromMontgomery', 'ToMontgomery'], tier)
 
@@ -200,7 +201,7 @@ def run(tier, seed):
         hb = sorted([n['n'] for n in r.nodes if n['op'] == 'var' and n['n'].startswith('hexbyte!')], key=lambda s: int(s.split('!')[1]))
         sub = type(r)(dict(r.d, paths=rest))
         decode_obligations(ck, sub, tag, l // 2, hb)
-    return ck.finish()
+    return ck.finish() if own else None
 
 
 def replay(path):
